@@ -258,13 +258,13 @@ ENCODER_CLAUSES = {
         (("(len(var_list) == self.k)", "not(sublists)"), "extend [Iff(var_list[0], _b0) for _b0 in var_list[1:]]"),
         (("(len(var_list) != self.k)", "not(sublists)"), "extend [Not(_b0) for _b0 in var_list]"),
         (("sublists",), "append If(sublists[0][0], And(sublists[0][1:-1]))"),
-        (("sublists",), "append If(And([Not(sublist[0]), sublist[1]]), And(sublist[2:]))"),
+        (("sublists",), "extend [If(And([Not(_b0[0]), _b0[1]]), And(_b0[2:])) for _b0 in sublists]"),
         (("sublists",), "append If(Not(sublists[-1][1]), Not(Or(sublists[-1][2:])))"),
     ],
     "ExactlyKInARow": [
         (("not(sublists)",), "extend [Not(_b0) for _b0 in var_list]"),
         (("sublists",), "append If(ite((0 < idx), ite((1 < len([Not(sublists[-1 + idx][0]), l[0]])), And([Not(sublists[-1 + idx][0]), l[0]]), [Not(sublists[-1 + idx][0]), l[0]][0]), l[0]), ite((idx < -1 + len(sublists)), ite((1 < len(concat(l[1:], [Not(sublists[1 + idx][-1])]))), And(concat(l[1:], [Not(sublists[1 + idx][-1])])), concat(l[1:], [Not(sublists[1 + idx][-1])])[0]), ite((1 < len(l[1:])), And(l[1:]), l[-1 + self.k])))"),
-        (("(1 < len(sublists[-1]))", "sublists"), "append If(list(reversed(sublists[-1]))[i], list(reversed(sublists[-1]))[1 + i])"),
+        (("(1 < len(sublists[-1]))", "sublists"), "extend [If(list(reversed(sublists[-1]))[_b0], list(reversed(sublists[-1]))[1 + _b0]) for _b0 in range(-1 + len(list(reversed(sublists[-1]))))]"),
     ],
 }
 
